@@ -659,9 +659,10 @@ def stream_dirs(ford, sf, drv, rng, n, variant, rep, workdir):
     from ford.fortran_project import Project
     from ford.settings import ProjectSettings
 
-    from .c10_e2e import entity_oracle
+    from .c10_e2e import ParentRecorder, entity_oracle, source_of_compare, source_of_request
 
-    stats = {"projects": 0, "entities": 0, "bad": 0, "kinds": {}, "dirs": {}, "requests": 0, "borrowed": 0,
+    srcstats = {"entities": 0, "bad": 0, "max_depth": 0, "reparented": 0, "files": 0, "depth_hist": {}}
+    stats = {"source_of": srcstats, "projects": 0, "entities": 0, "bad": 0, "kinds": {}, "dirs": {}, "requests": 0, "borrowed": 0,
              "unmapped": {}, "blocks": {}, "block_entities": 0, "oracle_fail": 0, "oracle_pairs": 0}
     for k in range(n):
         files, plan = gen_dir_sources(rng)
@@ -683,7 +684,7 @@ def stream_dirs(ford, sf, drv, rng, n, variant, rep, workdir):
         sf.namelist = sf.NameSelector()
         sf.NameSelector.get_name = rec
         try:
-            with common.quiet():
+            with common.quiet(), ParentRecorder(sf) as precs:
                 settings = ProjectSettings(src_dir=[root / "src"], preprocess=False, warn=False, dbg=True,
                                            extra_filetypes=[{"extension": "inc", "comment": "!"}] if "extra.inc" in files else [],
                                            display=["public", "private", "protected"])
@@ -691,6 +692,9 @@ def stream_dirs(ford, sf, drv, rng, n, variant, rep, workdir):
                 project.correlate()
                 roots = list(project.files) + list(project.extra_files)
                 ents = walk_entities(sf, roots)
+                srcof = source_of_request(sf, ents, precs.at_init)
+                srcstats["reparented"] += sum(1 for e in ents if id(e) in precs.at_init
+                                              and precs.at_init[id(e)] is not getattr(e, "parent", None))
                 obs = []
                 for e in ents:
                     cls = type(e).__name__
@@ -720,6 +724,22 @@ def stream_dirs(ford, sf, drv, rng, n, variant, rep, workdir):
         finally:
             sf.NameSelector.get_name = orig
         stats["projects"] += 1
+        # hierarchy / source_file / filename of every entity vs the model (FordModel/SourceOf.lean)
+        if srcof is not None:
+            req, expect, keepobjs, _skipped, entf = srcof
+            ans = drv.batch([req])[0]
+            srcstats["entities"] += len(expect)
+            srcstats["files"] += len({x[1] for x in expect})
+            for h, _, _ in expect:
+                dpt = 0 if h == "-" else h.count(",") + 1
+                srcstats["max_depth"] = max(srcstats["max_depth"], dpt)
+                srcstats["depth_hist"][str(dpt)] = srcstats["depth_hist"].get(str(dpt), 0) + 1
+            for o, got, want in source_of_compare(ans, expect, keepobjs, entf)[:3]:
+                srcstats["bad"] += 1
+                stats["bad"] += 1
+                rep.tie_broken(f"correspondence c10a-dir: (hierarchy, source_file, filename) of {type(o).__name__} "
+                               f"{getattr(o, 'name', None)!r}: model {got}, implementation {want}",
+                               {"stream": "c10a-dir", "files": files, "model": list(got), "code": list(want)})
         # property oracle on the entities of the real project (before anything is rendered)
         stats["oracle_pairs"] += npairs
         for f in ofails:
@@ -910,6 +930,7 @@ def run(tier: str, seed: int, replay: str | None = None) -> int:
         selector_histogram=sel["hist"],
         anchor_url_pairs_compared=sel["aux"],
         entity_stream={k: v for k, v in dirs.items()},
+        source_of_entities_compared=dirs["source_of"]["entities"] + e2e_stats.get("source_of", {}).get("entities", 0),
         e2e_stream=e2e_public,
         generated_table={"symbolTable": cfg[0], "suffixSep": cfg[1], "unnamedStem": cfg[2]},
     )
@@ -919,6 +940,9 @@ def run(tier: str, seed: int, replay: str | None = None) -> int:
         "generic specs are spelled with blanks between their tokens only (operator ( + )), as free source form "
         "requires; FORD keeps the spelling verbatim and treats different spacings as different names",
         "Jinja templates are not modelled: which items appear on a page, and with which id attribute, is observed "
-        "on the written site only (stream c10b)",
+        "on the written site (stream c10b): the ids in the HTML, and which entity objects answered `anchor` while "
+        "the page was rendered (outside get_url)",
+        "hierarchy/source_file: the model takes the parent every entity had when `_make_hierarchy` ran (recorded "
+        "by wrapping that method); FORD re-parents interface bodies later without recomputing `hierarchy`",
     ]
     return rep.finish(lean)
